@@ -15,6 +15,9 @@ def jnat (n : Nat) : Json := Json.num (JsonNumber.fromNat n)
 
 def handle (op : String) (j : Json) : Except String Json := do
   let kids ← kidsOf j
+  if op == "clist.assign" then   -- children sequence after `owner.rel = new` / `lst[i] = x`
+    let new ← j.getObjValAs? (Array Nat) "new"
+    return Json.arr ((assign kids new.toList).map (fun c => jnat c.1)).toArray
   let i ← j.getObjValAs? Int "i"
   let x ← j.getObjValAs? Nat "x"
   match op with
